@@ -66,9 +66,10 @@ def ls(cpu, o, row):
                 v1 = cpu.MemA(address, 4)
                 v2 = cpu.MemA((address + 4) & M32, 4)
             except RefAbort:
-                # a Data Abort on either word leaves the destination registers UNKNOWN (the base is preserved)
+                # a Data Abort on either word leaves the destination registers UNKNOWN - also when one of them is the base
+                # register (no write-back): same latitude as for the base-in-list case of an aborted LDM
                 for x in (t, t2):
-                    if x != n and x != 15:
+                    if x != 15:
                         cpu.set_unknown(x)
                 raise
             cpu.setR(t, v1)
